@@ -131,7 +131,19 @@ Thread *spawn_thread(void *(*fn)(void *), void *arg, Thread *parent)
   t->arg = arg;
   t->state = Thread::RUNNABLE;
   t->op = OP_START;
-  t->stack_lo = STACK_BASE + (uintptr_t)t->id * STACK_SLOT;
+  int slot;
+  if (g.free_slots.n) {
+    size_t best = 0;
+    for (size_t i = 1; i < g.free_slots.n; i++)
+      if (g.free_slots[i] < g.free_slots[best])
+        best = i;
+    slot = g.free_slots[best];
+    g.free_slots.erase_at(best);
+  } else {
+    slot = g.slots_used++;
+  }
+  t->slot = slot;
+  t->stack_lo = STACK_BASE + (uintptr_t)slot * STACK_SLOT;
   t->stack_hi = t->stack_lo + STACK_SLOT;
   t->prio = (int64_t)(g.rng_run.next() >> 2);
   if (g.replaying)
@@ -374,6 +386,17 @@ void thread_finish(Thread *t)
   pick_next(t);
 }
 
+// the simulated thread has finished and is being joined: wait for the OS thread to be gone (it is
+// past its last instruction of interest) and hand its stack slot - and with it its pthread_t - out again
+void sim_real_join_and_recycle(Thread *t)
+{
+  if (t->joined_real)
+    return;
+  real_pthread_join(t->real, nullptr);
+  t->joined_real = true;
+  g.free_slots.push(t->slot);
+}
+
 void sim_join_real_threads()
 {
   for (int i = 0; i < g.nthreads; i++) {
@@ -426,6 +449,8 @@ void sim_reset_run_state()
   g.notes_len = 0;
   g.notes[0] = 0;
   g.lowest_prio = 0;
+  g.free_slots.clear();
+  g.slots_used = 0;
   g.switch_log.clear();
   g.cores = 4;
   g.spurious = 0;
